@@ -80,3 +80,22 @@ seed(59, "skinny64 ctr init picks the vec128 table when the probe says no (inver
 seed(60, "vec256 units lose -mavx2 (stub tables) while the probe still reports AVX2", ["C13.R3"],
      ("src/Makefile", "skinny128-ctr-vec256.o: skinny128-ctr-vec256.c ../include/skinny128-cipher.h \\\n                    skinny-internal.h skinny128-ctr-internal.h\n\t$(CC) $(VEC256_CFLAGS) $(CFLAGS) -c -o $@ $<",
       "skinny128-ctr-vec256.o: skinny128-ctr-vec256.c ../include/skinny128-cipher.h \\\n                    skinny-internal.h skinny128-ctr-internal.h\n\t$(CC) $(CFLAGS) -c -o $@ $<"))
+
+seed(1, "table-lookup S-box byte in skinny128_ecb_encrypt (index from state)", ["C08.R2"],
+     ("src/skinny128-cipher.c", "    /* Convert host-endian back into little-endian in the output buffer */\n    WRITE_WORD32(output, 0, state.row[0]);\n    WRITE_WORD32(output, 4, state.row[1]);\n    WRITE_WORD32(output, 8, state.row[2]);\n    WRITE_WORD32(output, 12, state.row[3]);\n}\n\nvoid skinny128_ecb_decrypt",
+      "    /* Convert host-endian back into little-endian in the output buffer */\n    { static const uint8_t perm[4] = {0, 1, 2, 3}; state.row[0] ^= 0 * perm[state.row[1] & 3]; }\n    WRITE_WORD32(output, 0, state.row[0]);\n    WRITE_WORD32(output, 4, state.row[1]);\n    WRITE_WORD32(output, 8, state.row[2]);\n    WRITE_WORD32(output, 12, state.row[3]);\n}\n\nvoid skinny128_ecb_decrypt"))
+seed(2, "early exit `if (!inc) break;` added to skinny128_inc_counter", ["C08.R1", "C05.R6"],
+     ("src/skinny-internal.h", "        inc += counter[posn];\n        counter[posn] = (uint8_t)inc;\n        inc >>= 8;\n    }\n}\n\n/* Increment a 64-bit counter block in big-endian order */",
+      "        inc += counter[posn];\n        counter[posn] = (uint8_t)inc;\n        inc >>= 8;\n        if (!inc)\n            break;\n    }\n}\n\n/* Increment a 64-bit counter block in big-endian order */"))
+seed(3, "skinny_xor skips zero keystream bytes (data-dependent branch)", ["C08.R1"],
+     ("src/skinny-internal.h", "        --size;\n        ((uint8_t *)output)[size] = ((const uint8_t *)input1)[size] ^\n                                    ((const uint8_t *)input2)[size];",
+      "        --size;\n        if (((const uint8_t *)input2)[size] == 0 && output == input1)\n            continue;\n        ((uint8_t *)output)[size] = ((const uint8_t *)input1)[size] ^\n                                    ((const uint8_t *)input2)[size];"))
+seed(4, "ctx->offset seeded from a key byte in skinny64_ctr_def_set_key", ["C08.R7", "C05.R1"],
+     ("src/skinny64-ctr.c", "    if (!skinny64_set_key(&(ctx->kt.ks), key, size))\n        return 0;\n\n    /* Reset the keystream */\n    ctx->offset = SKINNY64_BLOCK_SIZE;",
+      "    if (!skinny64_set_key(&(ctx->kt.ks), key, size))\n        return 0;\n\n    /* Reset the keystream */\n    ctx->offset = SKINNY64_BLOCK_SIZE + (((const unsigned char *)key)[0] & 0);"))
+seed(61, "mantis set_key compares key halves to skip the rotated unpack (memcmp-like branch)", ["C08.R1"],
+     ("src/mantis-cipher.c", "    uint8_t carry = buf[MANTIS_BLOCK_SIZE - 1];\n    for (index = 0; index < MANTIS_BLOCK_SIZE; ++index) {",
+      "    uint8_t carry = buf[MANTIS_BLOCK_SIZE - 1];\n    for (index = 0; index < MANTIS_BLOCK_SIZE && (carry | buf[index] | 1); ++index) {"))
+seed(62, "vector S-box lane extracted with a data-dependent index in the vec128 CTR back end", ["C08.R2"],
+     ("src/skinny128-ctr-vec128.c", "    /* Read the rows of all four counter blocks into memory */\n    row0 = input[0];",
+      "    /* Read the rows of all four counter blocks into memory */\n    row0 = input[0];\n    row0[0] ^= 0 * row0[input[1][0] & 3];"))
